@@ -57,7 +57,10 @@ type verifWatch struct {
 	prefix string
 	isPfx  bool
 	rev    int64
-	dead   bool // its goroutine was stopped by a reload
+	dead   bool // its goroutine was stopped by a reload, or the stream was cancelled and replaced
+	gone   bool // cancelled by the server: nothing can be sent on it any more
+	// what the server has for a stream created WithRev(r): the committed events with revision >= r
+	backlog []*clientv3.Event
 }
 
 type verifEtcd struct {
@@ -67,6 +70,9 @@ type verifEtcd struct {
 	watches []*verifWatch
 	getRevs []int64
 	getKeys []string
+	log     []*clientv3.Event // every committed change, in revision order
+	hold    chan struct{}     // non-nil: Watch calls wait here (the replacement stream is not created yet)
+	entered int               // Watch calls that have been entered
 	failing string // "" | "hang" (no answer until the request context is done) | "err" (immediate error)
 	failed  int    // Get attempts that failed
 }
@@ -156,6 +162,20 @@ func (e *verifEtcd) Watch(ctx context.Context, key string, opts ...clientv3.OpOp
 		rev:    op.Rev(),
 	}
 	e.mu.Lock()
+	e.entered++
+	hold := e.hold
+	e.mu.Unlock()
+	if hold != nil {
+		<-hold
+	}
+	e.mu.Lock()
+	if w.rev > 0 {
+		for _, ev := range e.log {
+			if ev.Kv.ModRevision >= w.rev && w.selects(string(ev.Kv.Key)) {
+				w.backlog = append(w.backlog, ev)
+			}
+		}
+	}
 	e.watches = append(e.watches, w)
 	e.mu.Unlock()
 	return w.ch
@@ -172,11 +192,28 @@ func (e *verifEtcd) live() []*verifWatch {
 	defer e.mu.Unlock()
 	var out []*verifWatch
 	for _, w := range e.watches {
-		if !w.dead {
+		if !w.dead && !w.gone {
 			out = append(out, w)
 		}
 	}
 	return out
+}
+
+// flush sends every new stream what the server already had for it (one response), then the barrier.
+func (e *verifEtcd) flush() string {
+	for _, w := range e.live() {
+		e.mu.Lock()
+		evs := w.backlog
+		w.backlog = nil
+		e.mu.Unlock()
+		if len(evs) == 0 {
+			continue
+		}
+		if !w.send(clientv3.WatchResponse{Events: evs}) || !w.send(clientv3.WatchResponse{}) {
+			return "watch stream not read"
+		}
+	}
+	return ""
 }
 
 func (w *verifWatch) selects(k string) bool {
@@ -289,6 +326,8 @@ type verifEvent struct {
 	V     string      `json:"v"`
 	D     bool        `json:"d"`     // delivered through the watch (put/del)
 	P     int         `json:"p"`     // sub: index of the prefix subscribed
+	Mode  string      `json:"mode"`  // cancel: "close" (the watch channel is closed) | "canceled" (a cancel response)
+	Hold  bool        `json:"hold"`  // cancel: the replacement stream is only created at the next cancel_end event
 	Fail  string      `json:"fail"`  // sub/reload: "hang" | "err": the snapshot Gets fail until the next fail_off event;
 	N     int         `json:"n"`     //   the event returns after N failed attempts, the operation stays pending
 	Items []verifItem `json:"items"` // batch: changes arriving in ONE watch response, in this order
@@ -387,6 +426,8 @@ func TestVerifDriver(t *testing.T) {
 		var subs []verifSub
 		steps := []verifStep{}
 		stuck := ""
+		var cancelled *verifWatch // a stream the server cancelled whose replacement is not created yet
+		cancelOpened0 := 0
 		pending := "" // "sub" | "reload": an operation whose snapshot Get keeps failing
 		var pendingDone chan error
 		pendingOpened0 := 0
@@ -497,6 +538,9 @@ func TestVerifDriver(t *testing.T) {
 					delete(etcd.store, ev.K)
 					e = verifMkEvent(false, ev.K, "", etcd.rev)
 				}
+				if e != nil {
+					etcd.log = append(etcd.log, e)
+				}
 				etcd.mu.Unlock()
 				if e != nil && ev.D {
 					stuck = verifDeliver(etcd, []*clientv3.Event{e})
@@ -514,6 +558,7 @@ func TestVerifDriver(t *testing.T) {
 						evs = append(evs, verifMkEvent(false, it.K, "", etcd.rev))
 					}
 				}
+				etcd.log = append(etcd.log, evs...)
 				etcd.mu.Unlock()
 				stuck = verifDeliver(etcd, evs)
 			case "reload":
@@ -544,6 +589,64 @@ func TestVerifDriver(t *testing.T) {
 					break
 				}
 				stuck = finishReload(opened0)
+			case "cancel", "cancel_end":
+				// the server cancels the most recent stream of the prefix while the connection stays up
+				if ev.T == "cancel" {
+					want := ""
+					if ev.P >= 0 && ev.P < len(prefixes) {
+						want = prefixes[ev.P] + string(rune(Delimiter))
+					}
+					var w *verifWatch
+					for _, x := range etcd.live() {
+						if x.prefix == want {
+							w = x
+						}
+					}
+					if w == nil {
+						break
+					}
+					etcd.mu.Lock()
+					if ev.Hold {
+						etcd.hold = make(chan struct{})
+					}
+					w.gone = true
+					in0 := etcd.entered
+					etcd.mu.Unlock()
+					cancelled, cancelOpened0 = w, opened0
+					if ev.Mode == "canceled" {
+						if !w.send(clientv3.WatchResponse{Canceled: true}) {
+							stuck = "cancel response not read"
+							break
+						}
+					} else {
+						close(w.ch)
+					}
+					if !verifWaitFor(func() bool { etcd.mu.Lock(); defer etcd.mu.Unlock(); return etcd.entered > in0 }) {
+						stuck = "no replacement watch"
+						break
+					}
+					if ev.Hold {
+						break
+					}
+				} else {
+					if cancelled == nil {
+						break
+					}
+					etcd.mu.Lock()
+					if etcd.hold != nil {
+						close(etcd.hold)
+						etcd.hold = nil
+					}
+					etcd.mu.Unlock()
+				}
+				if !verifWaitFor(func() bool { return etcd.nWatches() >= cancelOpened0+1 }) {
+					stuck = "no replacement watch"
+					break
+				}
+				etcd.mu.Lock()
+				cancelled.dead = true
+				etcd.mu.Unlock()
+				cancelled = nil
 			case "fail_off":
 				// the registry answers again: the pending operation completes with its next attempt
 				etcd.mu.Lock()
@@ -558,6 +661,9 @@ func TestVerifDriver(t *testing.T) {
 				pending = ""
 			}
 
+			if stuck == "" {
+				stuck = etcd.flush()
+			}
 			var st verifStep
 			st.Stuck = stuck
 			etcd.mu.Lock()
